@@ -21,6 +21,7 @@ pub struct C01;
 pub fn profile(tier: Tier) -> Profile {
     let mut p = Profile::base(if tier == Tier::Quick { 40 } else { 120 });
     p.with_alt = true;
+    p.w_update_state = 1;
     p.big_batches = true;
     p.huge_payload = tier == Tier::Thorough;
     p.big_read_buf = tier == Tier::Thorough;
@@ -51,6 +52,11 @@ fn one_pass(case: &Case, cfg: &CfgSpec, info: &mut CaseInfo, first: bool) -> Res
         let mut nonempty_read = false;
         for op in &case.ops {
             if matches!(op, OpSpec::Reopen { .. } | OpSpec::Reject { .. } | OpSpec::Probe(_) | OpSpec::Steps(_)) {
+                continue;
+            }
+            // update_state only as an equivalent of the listed writes (vote / committed / user
+            // data changed); overriding `last` is not a write the property quantifies over
+            if matches!(op, OpSpec::UpdateState { what, .. } if what % 5 >= 3) {
                 continue;
             }
             let d = run.exec(op)?;
